@@ -271,35 +271,41 @@ func (m *Model) RunNilErr(s *Sink, rule string) {
 		return
 	}
 	els := m.findExpectLikes(parFns)
-	// candidates: parse functions that can return nil
+	// candidates: parser functions with a failure return (nil node, or a false verdict); reported: those that return AST nodes
+	isFailRet := func(b *ssa.BasicBlock) bool {
+		_, isRet := b.Instrs[len(b.Instrs)-1].(*ssa.Return)
+		return isRet && !isSuccessReturn(b)
+	}
 	good := map[*ssa.Function]bool{}
+	report := map[*ssa.Function]bool{}
 	var cands []*ssa.Function
+	parseStmt := m.Method("parser", "Parser", "parseStatement")
 	for _, fn := range parFns {
-		// parse functions: methods of the parser whose single result is an AST node (pointer or interface from package ast)
-		if fn.Signature.Recv() == nil || fn.Signature.Results().Len() != 1 {
-			continue
-		}
-		if fn == m.Method("parser", "Parser", "parseStatement") {
-			continue // its nil means "no statement starts here", the token is skipped by the caller
+		if fn.Signature.Recv() == nil || fn.Signature.Results().Len() == 0 || fn == parseStmt {
+			continue // parseStatement's nil means "no statement starts here"; the caller skips the token
 		}
 		rt := fn.Signature.Results().At(0).Type()
+		astNode := false
 		switch rt.Underlying().(type) {
 		case *types.Pointer, *types.Interface:
-		default:
-			continue // a nil slice is the empty list, not a failure signal
+			astNode = strings.Contains(types.TypeString(rt, nil), modPath+"/ast.")
 		}
-		if !strings.Contains(types.TypeString(rt, nil), modPath+"/ast.") {
-			continue
+		boolVerdict := verdictIndex(fn) >= 0 || (fn.Signature.Results().Len() == 1 && isBoolT(rt))
+		if !astNode && !boolVerdict {
+			continue // e.g. a nil slice is the empty list, not a failure signal
 		}
-		hasNil := false
+		hasFail := false
 		for _, b := range fn.Blocks {
-			if ret, ok := b.Instrs[len(b.Instrs)-1].(*ssa.Return); ok && len(ret.Results) == 1 && isNilConst(ret.Results[0]) {
-				hasNil = true
+			if isFailRet(b) {
+				hasFail = true
 			}
 		}
-		if hasNil {
+		if hasFail {
 			cands = append(cands, fn)
 			good[fn] = true // optimistic; greatest fixpoint
+			if astNode {
+				report[fn] = true
+			}
 		}
 	}
 	mk := func() *consumerInfo {
@@ -314,13 +320,13 @@ func (m *Model) RunNilErr(s *Sink, rule string) {
 	}
 	escapes := func(fn *ssa.Function, ci *consumerInfo) (bool, string) {
 		for _, b := range fn.Blocks {
-			ret, ok := b.Instrs[len(b.Instrs)-1].(*ssa.Return)
-			if !ok || len(ret.Results) != 1 || !isNilConst(ret.Results[0]) {
+			if !isFailRet(b) {
 				continue
 			}
+			// forwarding a good callee's failure verbatim: `return p.parseX()` is decided at the callee
 			target := b
 			if ci.pathAvoiding(fn, fn.Blocks[0], 0, func(x *ssa.BasicBlock) bool { return x == target && !ci.blockConsumes(x, 0) }, nil) {
-				return true, m.InstrPos(ret)
+				return true, m.InstrPos(b.Instrs[len(b.Instrs)-1])
 			}
 		}
 		return false, ""
@@ -340,17 +346,22 @@ func (m *Model) RunNilErr(s *Sink, rule string) {
 	}
 	ci := mk()
 	sort.Slice(cands, func(i, j int) bool { return fnKey(cands[i]) < fnKey(cands[j]) })
+	nRep := 0
 	for _, fn := range cands {
+		if !report[fn] {
+			continue
+		}
+		nRep++
 		key := fnKey(fn) + "|a nil result means an error was recorded"
 		if good[fn] {
-			s.OK(rule, key, m.Pos(fn.Pos()), "every path to `return nil` passes newError, the failure edge of an expect function, or the nil result of a parse function with the same guarantee")
+			s.OK(rule, key, m.Pos(fn.Pos()), "every path to a failure return passes newError (directly or in a helper that always records one), the failure edge of an expect function, or the failure result of a parser function with the same guarantee")
 		} else {
 			_, pos := escapes(fn, ci)
 			s.Violation(rule, key, pos, "%s can return nil on a path that records no error: the caller treats nil as \"already reported\", so the input is accepted with a piece missing (or a nil node is evaluated later)", fnKey(fn))
 		}
 	}
-	if len(cands) < 15 {
-		s.Undecided(rule, "parse functions returning nil", "-", "expected at least 15 parse functions with a nil return, found %d", len(cands))
+	if nRep < 15 {
+		s.Undecided(rule, "parse functions returning nil", "-", "expected at least 15 parse functions with a nil return, found %d", nRep)
 	}
 	// every caller of ParseProgram (parseStr, parseProgram today): a program is handed out only when no error was recorded
 	pp := m.Method("parser", "Parser", "ParseProgram")
